@@ -511,7 +511,8 @@ class C02(Property):
         if following:
             yield emit(with_item(head + ["SUPERIORS", following[0]] + tail), "superior-defined-later")
         yield emit([["DEFINE", "rn", "AS", "newname"], ["RULE", "rn"] + it[2:]], "alias-as-rule-name")
-        yield emit(with_conds(conds + ["EXTENDERS", "not", a]), "extenders-negative")
+        yield emit(items[:k] + [it[:ei] + ["EXTENDERS", "cds", "(", "not", a, rng.choice(["and", "or"]), "not", b, ")"]]
+                   + items[k + 1:], "extenders-negative")
 
     def token_strings(self, rng: random.Random, tier: str, deep: bool) -> Iterator[Dict[str, Any]]:
         """every string of <= n condition tokens after a fixed header (correspondence only)"""
@@ -537,7 +538,7 @@ class C02(Property):
         for level in ("strict", "relaxed", "loose"):
             yield {"kind": "parse", "shipped": level, "via": "create", "cmul": [1, 1], "nmul": [1, 1]}
         yield {"kind": "parse", "shipped": "loose", "via": "create", "cmul": [3, 2], "nmul": [1, 2]}
-        n_well = 2500 if deep else 600
+        n_well = 2500 if deep else 450
         for i in range(n_well):
             case, _ = self.wellformed(rng)
             yield case
@@ -750,7 +751,8 @@ class C02(Property):
             return
         if "files" not in case:
             return
-        base = {k: v for k, v in case.items() if k not in ("expect", "aliases")}
+        # the oracle annotations describe the unshrunk text only
+        base = {k: v for k, v in case.items() if k not in ("expect", "aliases", "expect_error")}
         files = case["files"]
         if len(files) > 1:
             for i in range(len(files)):
